@@ -285,6 +285,20 @@ def finish(pid, tier, seed, merged, harness_errors, ledger, known_lines, rule, l
         "violations": len(violations),
     }
     os.makedirs(EVIDENCE, exist_ok=True)
+    # the thorough run is kept next to the latest run, and the latest run points to it
+    tdir = os.path.join(EVIDENCE, "thorough")
+    if tier == "thorough":
+        os.makedirs(tdir, exist_ok=True)
+        with open(os.path.join(tdir, pid + ".json"), "w") as fh:
+            json.dump(ev, fh, indent=1, default=str)
+    else:
+        try:
+            with open(os.path.join(tdir, pid + ".json")) as fh:
+                t = json.load(fh)
+            ev["last_thorough_run"] = {"file": "evidence/thorough/%s.json" % pid, "seed": t.get("seed"), "evaluations": t["coverage"].get("evaluations"),
+                                       "distinct_nontrivial": t["coverage"].get("distinct_nontrivial"), "violations": t.get("violations"), "wall_s": t.get("wall_s")}
+        except (OSError, ValueError, KeyError):
+            pass
     with open(os.path.join(EVIDENCE, pid + ".json"), "w") as fh:
         json.dump(ev, fh, indent=1, default=str)
     for line in known_lines:
